@@ -2,4 +2,5 @@ INIT Init
 NEXT Next
 CONSTANTS
   Layouts = {0, 1, 2, 3, 4, 5, 6, 7, 8, 9, 10, 11, 12, 13, 14, 15}
+  NestedKind = "include_if"
 INVARIANTS FirstWins EmitVec
